@@ -112,6 +112,15 @@ impl Kind {
     }
 }
 
+thread_local! {
+    static CTOR_STATS: std::cell::Cell<simcore::countalloc::AllocStats> = const { std::cell::Cell::new(simcore::countalloc::AllocStats { calls: 0, bytes: 0, largest: 0, big_calls: 0 }) };
+}
+
+/// Allocation requests made inside the last `RateEncoder::new` / `RateDecoder::new` on this thread.
+pub fn take_ctor_stats() -> simcore::countalloc::AllocStats {
+    CTOR_STATS.with(std::cell::Cell::take)
+}
+
 pub trait MkEngine: Engine + Sized + 'static {
     fn mk() -> Self;
 }
@@ -236,10 +245,10 @@ fn enc_new_t<E: MkEngine, T: RateEncoder<E> + 'static>(
     work: Option<EncoderWork>,
 ) -> Result<Box<dyn DynEncoder>, Error> {
     let engine = E::mk();
-    Ok(Box::new(EncWrap(
-        T::new(k, r, b, engine, work)?,
-        std::marker::PhantomData,
-    )))
+    // only the crate's constructor is an allocation region, not the harness Box or the engine
+    let (inner, stats) = simcore::countalloc::measure(|| T::new(k, r, b, engine, work));
+    CTOR_STATS.with(|c| c.set(stats));
+    Ok(Box::new(EncWrap(inner?, std::marker::PhantomData)))
 }
 
 /// Constructs an encoder. `work` is ignored (must be `None`) for `Layer::Rs`.
@@ -357,10 +366,9 @@ fn dec_new_t<E: MkEngine, T: RateDecoder<E> + 'static>(
     work: Option<DecoderWork>,
 ) -> Result<Box<dyn DynDecoder>, Error> {
     let engine = E::mk();
-    Ok(Box::new(DecWrap(
-        T::new(k, r, b, engine, work)?,
-        std::marker::PhantomData,
-    )))
+    let (inner, stats) = simcore::countalloc::measure(|| T::new(k, r, b, engine, work));
+    CTOR_STATS.with(|c| c.set(stats));
+    Ok(Box::new(DecWrap(inner?, std::marker::PhantomData)))
 }
 
 pub fn dec_new(
